@@ -127,23 +127,53 @@ def run_cases(res: Result, rng: random.Random, per_entry: int, n_raw: int, oracl
             oracle_fail.append({"what": "re-encoding a decoded well-formed AVP differs from input",
                                 "line": f"AVPENC {obj}", "real": r2, "expected": wire})
         d.add(f"AVPVAL {ty} {data.hex()}")
-    # run-time registration
+    # run-time registration (definitions registered at run time are part of the quantifier; they are not in the
+    # generated tables, so this part is judged by the direct oracle only): unknown before, typed after, overwritable
     try:
         import realcodec
         from diameter.message.avp import avp as A2
-        # registered definitions are not in the generated tables: real-only oracle
-        A2.register(90000001, "X-Verif-Test", A2.AvpUnsigned32, vendor=4242424, mandatory=True)
-        a = A2.Avp.new(90000001, 4242424, value=7)
-        b = A2.Avp.from_bytes(a.as_bytes())
-        ok = type(b) is A2.AvpUnsigned32 and b.value == 7 and b.is_mandatory and b.vendor_id == 4242424
-        A2.register(90000002, "X-Verif-Test2", A2.AvpUtf8String)
-        c = A2.Avp.from_bytes(A2.Avp.new(90000002, value="x").as_bytes())
-        ok = ok and type(c) is A2.AvpUtf8String and c.value == "x" and not c.is_mandatory
+        import gen as G
+
+        def use(code, vendor, payload):
+            """how the pair is treated right now: (class name of the decoded AVP, whether Avp.new knows it)"""
+            w = G.rfc_wire(code, vendor, (0x80 if vendor else 0), payload)
+            dec = A2.Avp.from_bytes(w)
+            grp = A2.Avp.from_bytes(G.rfc_wire(456, 0, 0x40, w)).value[0]       # the same AVP inside a grouped one
+            try:
+                A2.Avp.new(code, vendor)
+                known = True
+            except ValueError:
+                known = False
+            return type(dec).__name__, type(grp).__name__, known
+        problems = []
+        for code, vendor in ((90000001, 4242424), (90000002, 0), (90000003, 10415)):
+            before = use(code, vendor, b"\x00\x00\x00\x07")
+            if before != ("Avp", "Avp", False):
+                problems.append(f"({code},{vendor}) before registration: {before}")
+            A2.register(code, "X-Verif-Test", A2.AvpUnsigned32, vendor=vendor or None, mandatory=True)
+            after = use(code, vendor, b"\x00\x00\x00\x07")
+            a = A2.Avp.new(code, vendor, value=7)
+            b = A2.Avp.from_bytes(a.as_bytes())
+            if after != ("AvpUnsigned32", "AvpUnsigned32", True) or type(b) is not A2.AvpUnsigned32 or b.value != 7 \
+                    or not b.is_mandatory or b.vendor_id != vendor:
+                problems.append(f"({code},{vendor}) after registration: {after} {type(b).__name__}")
+            # overwriting an existing definition (documented): the new type applies from then on
+            A2.register(code, "X-Verif-Test", A2.AvpUnsigned64, vendor=vendor or None, mandatory=True)
+            c = A2.Avp.new(code, vendor, value=2 ** 40)
+            e = A2.Avp.from_bytes(c.as_bytes())
+            if type(e) is not A2.AvpUnsigned64 or e.value != 2 ** 40 or len(c.payload) != 8:
+                problems.append(f"({code},{vendor}) after re-registration as Unsigned64: {type(e).__name__}")
+            A2.register(code, "X-Verif-Test", A2.AvpUtf8String, vendor=vendor or None)
+            f = A2.Avp.from_bytes(A2.Avp.new(code, vendor, value="x").as_bytes())
+            if type(f) is not A2.AvpUtf8String or f.value != "x" or f.is_mandatory:
+                problems.append(f"({code},{vendor}) after re-registration as UTF8String: {type(f).__name__}")
+            res.count("register")
         del D_vendor()[4242424]
         del realcodec.D.AVP_DICTIONARY[90000002]
-        res.count("register")
-        if not ok:
-            oracle_fail.append({"what": "run-time registered AVP not used by Avp.new/from_bytes", "line": "register()"})
+        del D_vendor()[10415][90000003]
+        if problems:
+            oracle_fail.append({"what": "run-time registration not honoured by Avp.new / from_bytes (unknown before, typed after, "
+                                        "overwritable): " + "; ".join(problems)[:600], "line": "register()"})
     except Exception as ex:  # noqa
         oracle_fail.append({"what": f"register() raised {type(ex).__name__}: {ex}", "line": "register()"})
     for s in d.lines[:3] + d.lines[len(d.lines) // 2: len(d.lines) // 2 + 2]:
